@@ -368,15 +368,18 @@ class Type4Tag(nfc.tag.Tag):
             while offset < len(data):
                 offset += self._update_binary(offset, data[offset:])
 
-            if nlen:
-                self._update_binary(0, nlen)
+            offset = 0
+            while nlen and offset < len(nlen):
+                offset += self._update_binary(offset, nlen[offset:])
 
             return True
 
         def _wipe_ndef_data(self, wipe=None):
             lfmt = ">I" if self._nlen_size == 4 else ">H"
             nlen = bytearray(pack(lfmt, 0))
-            self._update_binary(0, nlen)
+            offset = 0
+            while offset < len(nlen):
+                offset += self._update_binary(offset, nlen[offset:])
             offset = self._nlen_size
             data = bytearray(self._capacity * [wipe % 256])
             while offset < self.capacity:
